@@ -42,6 +42,11 @@ def load_reactions(tags=None) -> dict:
         REACTIONS[tag] = reaction
         if tag in THREE_BODY_RELABEL:
             REACTIONS[tag + "+r"] = relabel_edge_ids(reaction)
+        if tag in SUBSETTED:
+            sub = subset_reaction(reaction)
+            REACTIONS[tag + "#1"] = sub
+            if tag in THREE_BODY_RELABEL:
+                REACTIONS[tag + "#1+r"] = relabel_edge_ids(sub)
         if tag in ALIASED:
             alias = alias_reaction(reaction)
             REACTIONS[tag + "@x"] = alias
@@ -50,6 +55,19 @@ def load_reactions(tags=None) -> dict:
 
 
 ALIASED = ("gpp_h", "lc_h", "d3pi_h")
+SUBSETTED = ("lc_h", "ksp_h", "kkpi_h", "gpp_c", "etac_c")
+
+
+def subset_reaction(reaction):
+    """What a user gets who filters a reaction down to one resonance hypothesis: only the transitions
+    through the alphabetically first intermediate particle."""
+    from qrules.transition import ReactionInfo  # noqa: PLC0415
+
+    names = sorted({s.particle.name for t in reaction.transitions for s in t.intermediate_states.values()})
+    keep = names[0]
+    transitions = [t for t in reaction.transitions
+                   if {s.particle.name for s in t.intermediate_states.values()} == {keep}]
+    return ReactionInfo(transitions=transitions or list(reaction.transitions), formalism=reaction.formalism)
 
 
 def alias_reaction(reaction):
